@@ -1173,6 +1173,47 @@ mod verif_driver_compile {
         println!("VERIF-CASES fn=entry_point n={n}");
     }
 
+    // ---- C10 (reproducibility across processes): an input, reference or collateral block that resolved to SEVERAL UTxOs holds
+    // them as a set; the same reduced template built again (another process, another decode, another resolution) iterates
+    // that set in another order - the compiled lists, and with them payload and hash, must not depend on it.
+    // BOUND: 6 UTxOs per block, the template rebuilt 24 times with freshly built sets.
+    #[test]
+    fn utxo_sets_compile_reproducibly() {
+        use tx3_tir::model::core::{Utxo, UtxoRef};
+        let mut n = 0;
+        let build = || {
+            let set = |base: u8| -> tir::Expression {
+                let mut h = HashSet::new();
+                for i in 0..6u8 { h.insert(Utxo { r#ref: UtxoRef { txid: vec![base.wrapping_add(i.wrapping_mul(37)); 32], index: (i % 3) as u32 }, address: vec![0x61; 29], datum: None, script: None, assets: tx3_tir::model::assets::CanonicalAssets::from_naked_amount(5_000_000) }); }
+                tir::Expression::UtxoSet(h)
+            };
+            let mut tx = empty_tx();
+            tx.inputs = vec![tir::Input { name: "a".into(), utxos: set(1), redeemer: tir::Expression::None }];
+            tx.references = vec![set(2)];
+            tx.collateral = vec![tir::Collateral { utxos: set(3) }];
+            tx
+        };
+        let show = |v: Result<Vec<primitives::TransactionInput>, Error>| -> String { match v { Ok(l) => l.iter().map(|i| format!("{:02x}#{}", i.transaction_id[0], i.index)).collect::<Vec<_>>().join(" "), Err(e) => format!("Err({e})") } };
+        let first = build();
+        let want = (show(compile_inputs(&first)), show(compile_reference_inputs(&first)), show(compile_collateral(&first)));
+        for (k, (what, f)) in [("inputs", 0usize), ("reference inputs", 1), ("collateral", 2)].iter().enumerate() {
+            let _ = k;
+            for round in 0..24 {
+                n += 1;
+                let tx = build();
+                let got = match f { 0 => show(compile_inputs(&tx)), 1 => show(compile_reference_inputs(&tx)), _ => show(compile_collateral(&tx)) };
+                let w = match f { 0 => &want.0, 1 => &want.1, _ => &want.2 };
+                if &got != w {
+                    witness(&format!("c10_cardano/{}#reproducible", ["compile_inputs", "compile_reference_inputs", "compile_collateral"][*f]), ["compile_inputs", "compile_reference_inputs", "compile_collateral"][*f], format!("one block of 6 UTxOs held as a set, the same template built again (round {round}) class=utxo-set-iteration-order"), format!("{what}: {got}"), &format!("{w} (the same list whenever the same template is compiled)"));
+                    break;
+                }
+            }
+        }
+        println!("VERIF-CASES fn=compile_inputs n={n}");
+        println!("VERIF-CASES fn=compile_reference_inputs n={n}");
+        println!("VERIF-CASES fn=compile_collateral n={n}");
+    }
+
     // ---- C02: an asset list that names a class more than once (a client-sent IR may; the reducer merges them) denotes the SUM
     // of the entries: in an output, a published output, a mint and a burn the amounts of a repeated class add up (or the
     // transaction is refused) - the later entries are never dropped.
